@@ -246,6 +246,33 @@ def run(ctx):
                 path.reverse()
                 rep.check(r3b, '_'.join(path) == label and e == ('param', 2), logger + '::client_info:' + label,
                           'label %s prints %s' % (label, short(a)), cf.loc(bi))
+            if logger.endswith('LogfmtLogger') and not [1 for i_ in rep.rules[r3b]['instances']]:
+                # table form: [("key", c.<field>.map(to_string)), ...] folded into ' key=value' pieces
+                tabs = []
+                for bi, b in enumerate(cf.blocks):
+                    for i, st in enumerate(b['stmts']):
+                        if st['rv']['k'] == 'agg' and st['rv'].get('agg') == 'array' and not b['cleanup']:
+                            v = cf._through(cf.rvalue(st['rv'], (bi, i)), (bi, i), 0)
+                            if all(isinstance(x, tuple) and x[0] == 'agg' and x[1] == 'tuple' and len(x[2]) == 2 for x in v[2]) and v[2]:
+                                tabs.append((bi, v))
+                ps = [(b_, cf.argv(b_, 1)) for b_, t_ in cf.calls(r'String::push_str$')]
+                keyp = [b_ for b_, a_ in ps if short(a_).endswith('.0.0')]
+                valp = [b_ for b_, a_ in ps if '.0.1' in short(a_)]
+                same_elem = len(keyp) == 1 and len(valp) == 1 and calls_in(ps[0][1], r'::next$') != [] and \
+                    [c_[2] for c_ in calls_in(cf.argv(keyp[0], 1), r'::next$')] == [c_[2] for c_ in calls_in(cf.argv(valp[0], 1), r'::next$')]
+                for bi, v in tabs[:1]:
+                    for x in v[2]:
+                        lab = peel(x[2][0])
+                        label = bytes.fromhex(lab[1]).decode('latin1') if isinstance(lab, tuple) and lab[0] == 'bytes' else '?'
+                        ents = [y for y in walk(x[2][1]) if isinstance(y, tuple) and y[0] == 'entry']
+                        path, e = [], (ents[0][1] if ents else None)
+                        while isinstance(e, tuple) and e[0] in ('field', 'variant', 'deref'):
+                            if e[0] == 'field' and e[2] != '0':
+                                path.append(e[2])
+                            e = e[1]
+                        path.reverse()
+                        rep.check(r3b, '_'.join(path) == label and e == ('param', 2) and same_elem and len(ents) == 1, logger + '::client_info:' + label,
+                                  'table entry %s renders %s; key and value pushed from the same element: %s' % (label, short(x[2][1])[:60], same_elem), cf.loc(bi))
         for p in PROTOS:
             for ev in EVENTS:
                 fid = '<%s as logger::Logger>::%s_%s' % (logger, p, ev)
